@@ -160,6 +160,8 @@ def iter_len(it, env):
         return max(0, aeval(it.args[0], env))
     if isinstance(it, ast.Call) and isinstance(it.func, ast.Name) and it.func.id == 'range' and len(it.args) == 2:
         return max(0, aeval(it.args[1], env) - aeval(it.args[0], env))
+    if isinstance(it, ast.Call) and (dotted(it.func) or '') in ('pairwise', 'itertools.pairwise') and len(it.args) == 1:
+        return max(0, iter_len(it.args[0], env) - 1)
     if isinstance(it, ast.Attribute) and norm(it) == 'self.segments':
         return nseg
     if isinstance(it, ast.Subscript) and norm(it.value) == 'self.segments' and isinstance(it.slice, ast.Slice) \
@@ -174,9 +176,11 @@ def iter_len(it, env):
     raise Undecidable('iterations of %s' % norm(it)[:60])
 
 
-def _relevant(st):
+def _relevant(st, skip_names=()):
     txt = norm(st)
-    return not (isinstance(st, (ast.For, ast.While)) and 'Pulse(' not in txt and 'end_segs' not in txt)
+    helpers = set(re.findall(r'self\.(_\w+)\(', txt))
+    return not (isinstance(st, (ast.For, ast.While)) and 'Pulse(' not in txt and 'end_segs' not in txt
+                and helpers <= set(skip_names))
 
 
 class Creation:
@@ -218,9 +222,20 @@ def creation_model(ctx):
         return cache
     from ..symx import SymExec
     f = ctx.func(CC)
-    stmts = [st for st in f.body() if _relevant(st)]
-    paths = [p for p in SymExec(ctx, f, bind_loops=True, objects=True, effects=True, max_paths=20000,
-                                   volatile=('pulse_idx',)).run(stmts=stmts)
+    # helpers that (with everything they call on self) neither create pulses nor touch end_segs /
+    # the pulse lists do not matter for this model (the end matching): not looked into
+    from ..rules import self_closure
+    skip = set()
+    for g in self_closure(ctx, f):
+        if g.qual == f.qual:
+            continue
+        txt = ' '.join(norm(h.node) for h in self_closure(ctx, g))
+        returns_value = any(isinstance(n_, ast.Return) and n_.value is not None for n_ in ast.walk(g.node))
+        if 'Pulse(' not in txt and 'end_segs' not in txt and '.pulses' not in txt and not returns_value:
+            skip.add(g.qual)
+    stmts = [st for st in f.body() if _relevant(st, {q.rsplit('.', 1)[1] for q in skip})]
+    paths = [p for p in SymExec(ctx, f, depth=3, bind_loops=True, objects=True, effects=True, max_paths=20000,
+                                   volatile=('pulse_idx',), no_expand=skip).run(stmts=stmts)
              if p.end != 'raise']
     n_create = sum(1 for p in paths for ev in p.events if ev[0] == 'create' and norm(ev[2].func) == 'Pulse')
     if not paths or not n_create:
